@@ -214,6 +214,18 @@ def run_shard(sh, rec):
                             if rec.want_sample((styles, cb, sb, use_style, pool)):
                                 rec.sample({"styles": [list(s) for s in styles], "contest_bounds(count+)": list(cb), "stratum_bound(n+)": sb, "use_style": use_style,
                                             "pool_label": pool, "phantoms": info and info["phantoms"]})
+    elif sh[0] == "count":
+        # many records of two styles: k of n list c1, the others c2 only; bounds = counts + 1 (every count 0..n, n up to 60)
+        for n in range(1, 61):
+            for k in range(0, n + 1):
+                styles = [("c1",)] * k + [("c2",)] * (n - k)
+                v, info = judge_accounting(styles, (1, 1), 1, True, False)
+                rec.state()
+                rec.trans()
+                rec.evals()
+                rec.vac("counting_family_cases")
+                for key, what in v:
+                    rec.violate(key, what, {"kind": "acct", "styles": [list(s_) for s_ in styles], "cb": [1, 1], "sb": 1, "use_style": True, "pool": False})
     elif sh[0] == "score":
         _, kind, n, first = sh
         alpha = s3.alphabet(kind)
@@ -250,7 +262,7 @@ def run_shard(sh, rec):
 
 
 def explore(tier, seed):
-    sh = [("vendor", "dominion"), ("vendor", "hart")]
+    sh = [("vendor", "dominion"), ("vendor", "hart"), ("count",)]
     for n in range(1, PLAN[tier] + 1):
         for first in range(4):
             sh.append(("acct", n, first))
